@@ -3,3 +3,6 @@ import Gomjml.Props.C19
 #print axioms Gomjml.Props.C19.C19_rendered
 #print axioms Gomjml.Props.C19.C19_no_match
 #print axioms Gomjml.Props.C19.C19_class_sites
+#print axioms Gomjml.Props.C19.C19_tag_parse_lossless
+#print axioms Gomjml.Props.C19.C19_tag_append
+#print axioms Gomjml.Props.C19.C19_tag_merge
